@@ -291,6 +291,28 @@ def probes(r, cfg):
         reads_only(l0, 'get_grid_export_limit')
         if a[0] == 'ok' and (g[0] != 'ok' or g[1] != x):
             out.append(('C19', 'export-limit-round-trip', f'set {x}, get -> {str(g)[:60]}'))
+    # C19: the setters do not disturb each other - what one of them set is still what its getter returns after the others
+    # were used (every mode; limits set before)
+    a = r.call(inv.set_grid_export_limit, 4321 if not (fam == 'DT' and cfg['tag'] == 'DTU') else 77)
+    want_x = 4321 if not (fam == 'DT' and cfg['tag'] == 'DTU') else 77
+    b = r.call(inv.set_ongrid_battery_dod, 37) if fam in ('ET', 'ES') else ('skip',)
+    if fam in ('ET', 'ES'):
+        for m in (OM.GENERAL, OM.OFF_GRID, OM.BACKUP, OM.ECO, OM.ECO_CHARGE, OM.ECO_DISCHARGE, OM.PEAK_SHAVING, OM.SELF_USE):
+            sm = r.call(inv.set_operation_mode, m, 40, 60)
+            if sm[0] != 'ok':
+                continue
+            g = r.call(inv.get_grid_export_limit)
+            if a[0] == 'ok' and (g[0] != 'ok' or g[1] != want_x):
+                out.append(('C19', f'export-limit-survives-set_operation_mode/{m.name}', f'limit set to {want_x}, then mode {m.name}: get -> {str(g)[:60]}'))
+            g = r.call(inv.get_ongrid_battery_dod)
+            if b[0] == 'ok' and (g[0] != 'ok' or g[1] != 37):
+                out.append(('C19', f'dod-survives-set_operation_mode/{m.name}', f'DoD set to 37, then mode {m.name}: get -> {str(g)[:60]}'))
+        last = r.call(inv.get_operation_mode)
+        r.call(inv.set_grid_export_limit, 1111)
+        r.call(inv.set_ongrid_battery_dod, 55)
+        again = r.call(inv.get_operation_mode)
+        if last[0] == 'ok' and again != last:
+            out.append(('C19', 'mode-survives-the-limit-setters', f'mode {last[1]}, then export limit and DoD set: get -> {str(again)[:60]}'))
     if dev.bad:
         out.append(('C03', 'requests-parse', str(dev.bad[0][1])))
     return out
